@@ -668,11 +668,22 @@ def h_load( ctx ):
         res.bad( src, oc, 'open target', 'the next file must be searched relative to the last accepted timestamp (self._ts)' )
     aft = kw.get( 'after' )
     aft_ok = False
+    STATES = ( 'INITIAL', 'SWITCHING', 'STREAMING', 'AWAITING', 'EXHAUSTED', 'COMPLETE', 'FAILED' )
+    def by_state( e ):
+        """the truth of a test of self.state, for each loader state ( None where the test looks at more than the state )"""
+        out = []
+        for st_ in STATES:
+            env = { 'self.state': st_ }
+            env.update(( 'self.' + n_, n_ ) for n_ in STATES )
+            env.update(( 'loader.' + n_, n_ ) for n_ in STATES )
+            v_ = try_fold( e, env, default='?' )
+            out.append( None if v_ == '?' else bool( v_ ))
+        return out
     if aft is not None:
-        if pmatch( aft, 'self.state != self.INITIAL' ):
-            aft_ok = True
-        elif isinstance( aft, ast.Name ):
-            aft_ok = bool( pfind( ld, '%s = ( self.state != self.INITIAL )' % aft.id ) or pfind( ld, '%s = self.state != self.INITIAL' % aft.id ))
+        if isinstance( aft, ast.Name ):
+            ds_ = [ a_.value for a_ in ast.walk( ld ) if isinstance( a_, ast.Assign ) and any( isinstance( t_, ast.Name ) and t_.id == aft.id for t_ in a_.targets ) ]
+            aft = ds_[0] if len( ds_ ) == 1 else aft
+        aft_ok = by_state( aft ) == [ n_ != 'INITIAL' for n_ in STATES ]
     if aft_ok:
         res.ok( src, oc, 'open( after = state is not INITIAL ): the first file is the one at/before the start point, later ones follow the last timestamp' )
     else:
@@ -685,7 +696,7 @@ def h_load( ctx ):
         res.ok( src, oc, 'open( lookahead = self.lookahead )' )
     else:
         res.bad( src, oc, 'open lookahead', 'the configured look-ahead must be handed to open' )
-    if blk and ( pmatch( blk[0].test, 'self.state in ( self.INITIAL, self.SWITCHING )' ) or pmatch( blk[0].test, 'self.state in ( self.SWITCHING, self.INITIAL )' )):
+    if blk and by_state( blk[0].test ) == [ n_ in ( 'INITIAL', 'SWITCHING' ) for n_ in STATES ]:
         res.ok( src, blk[0], 'a file is opened exactly in states INITIAL and SWITCHING' )
     else:
         res.bad( src, blk[0] if blk else ost, 'open condition', 'a new file must be opened exactly when INITIAL or SWITCHING (STREAMING/AWAITING continue the open generator)' )
@@ -827,7 +838,12 @@ def h_load( ctx ):
         res.bad( src, lp, 'drain loop', 'queued records must be applied to the register map when their time has come' )
     else:
         w = dr[0]
-        if pmatch( w.test, 'len( self.future ) and self.future[0][0] <= %s' % CUR ) or pmatch( w.test, 'self.future and self.future[0][0] <= %s' % CUR ):
+        # by value: nothing queued -> stop; the oldest entry's time before / at the advancing time -> apply; after it -> stop
+        def drains( fut, cur ):
+            v_ = try_fold( w.test, { 'self.future': fut, CUR: cur }, default='?' )
+            return None if v_ == '?' else bool( v_ )
+        if [ drains( [], 5 ), drains( [ ( 4, 'r' ) ], 5 ), drains( [ ( 5, 'r' ) ], 5 ), drains( [ ( 6, 'r' ) ], 5 ), drains( [ ( 4, 'r' ), ( 9, 'r' ) ], 5 ) ] \
+           == [ False, True, True, False, True ]:
             res.ok( src, w, 'a queued record is applied only when its timestamp <= the advancing historical time (never early; look-ahead only queues)' )
         else:
             res.bad( src, w, w.test, 'queued records may be applied to the register map only once the advancing historical time has reached them (<= cur, without look-ahead)' )
@@ -838,7 +854,10 @@ def h_load( ctx ):
         else:
             res.bad( src, w, 'drain body', 'the oldest queued record must be popped (popleft), applied to self.values and recorded in self.until' )
         up = [ s for s in w.body if isinstance( s, ast.If ) and 'upcoming' in names_in( s.test ) ]
-        if up and pmatch( up[0].test, 'upcoming is not None and self.future[0][0] >= upcoming' ) and any( isinstance( b, ast.Return ) for b in up[0].body ) \
+        def held( upc, ts ):
+            v_ = try_fold( up[0].test, { 'upcoming': upc, 'self.future': [ ( ts, 'r' ), ( 99, 'r' ) ] }, default='?' )
+            return None if v_ == '?' else bool( v_ )
+        if up and [ held( None, 5 ), held( 6, 5 ), held( 5, 5 ), held( 4, 5 ) ] == [ False, False, True, True ] and any( isinstance( b, ast.Return ) for b in up[0].body ) \
            and w.body.index( up[0] ) < min( [ w.body.index( s ) for s in w.body if any( isinstance( c, ast.Call ) and isinstance( c.func, ast.Attribute ) and c.func.attr in ( 'popleft', 'pop' ) for c in ast.walk( s )) ] or [ len( w.body ) ] ):
             res.ok( src, up[0], 'no record at or beyond `upcoming` is applied' )
         else:
